@@ -1,5 +1,6 @@
 #!/bin/bash
 # Re-run every kept seeded change against the CURRENT /repo: apply patch, run all quick checks, undo.
+mkdir -p /tmp/seedscratch
 # Updates seeded/<id>/meta.json (checks_that_fire, findings, rechecked_at).
 cd /repo || exit 2
 if ! git diff --quiet; then echo "/repo dirty, abort"; exit 2; fi
@@ -11,7 +12,7 @@ for d in /verif/seeded/*/; do
     fires=""; finds=""
     for c in $(ls /verif/txsa/rules | grep -o '^c[0-9][0-9]' | sort -u); do
       C=$(echo $c | tr c C)
-      out=$(cd /verif && TXSA_EVIDENCE_OUT=/tmp/wt/ev_rerun_$C.json ./check $C 2>&1 | grep -v conda)
+      out=$(cd /verif && TXSA_EVIDENCE_OUT=/tmp/seedscratch/ev_rerun_$C.json ./check $C 2>&1 | grep -v conda)
       if echo "$out" | grep -q '^VIOLATION'; then fires="$fires $C"; finds="$finds$(echo "$out" | grep '^FINDING' | head -2 | cut -c9-140 | tr '\n' ';')"; fi
       if echo "$out" | grep -q 'ANALYSIS-ERROR'; then fires="$fires $C(analysis-error)"; fi
     done
@@ -30,4 +31,4 @@ PY
     echo "$id | patch does not apply to /repo@$HEAD (kept as recorded)"
   fi
 done
-rm -f /tmp/wt/ev_rerun_*.json
+rm -rf /tmp/seedscratch
